@@ -6,7 +6,7 @@ use crate::e1::Vector;
 use crate::expect::Expectation;
 use crate::report::Report;
 use crate::tape::{fnv_str, sample_tapes, Tape};
-use crate::world::inputs::{assignment_input, assignment_wire, has_none_and_some, InputGen};
+use crate::world::inputs::{assignment_input, assignment_wire, has_none_and_some, nonnull_violations, InputGen};
 use serde_json::{json, Value};
 
 pub fn build_item(tape: &[u8], cfg: &CaseCfg, n_assign: usize, stats: &mut GenStats) -> Option<Item> {
@@ -36,6 +36,15 @@ pub fn build_item(tape: &[u8], cfg: &CaseCfg, n_assign: usize, stats: &mut GenSt
             labels.push(format!("assignment#{} op={}", k, u.op_name));
             base.case.vectors.push(Vector { unit: ui, kind: "variables".into(), name: String::new(), input });
             expects.push(Expectation::OkMember { key: "variables".into(), value: wire });
+            if k < 3 {
+                // precision: `Variables` cannot express null / nothing at a non-null position
+                for (what, bad) in nonnull_violations(&a, 4) {
+                    nt.push(if rich { Some(fnv_str(&[&base.case.schema_text, &base.case.document, &bad.to_string(), "nonnull"])) } else { None });
+                    labels.push(format!("{} (assignment#{} op={})", what, k, u.op_name));
+                    base.case.vectors.push(Vector { unit: ui, kind: "variables".into(), name: String::new(), input: bad });
+                    expects.push(Expectation::MustErr);
+                }
+            }
         }
     }
     if base.case.vectors.is_empty() {
@@ -49,7 +58,7 @@ fn classify(_f: &Failure) -> Option<String> {
 }
 
 pub fn run(report: &mut Report, replay: Option<&Value>) {
-    report.rule = "operations with 1-5 variables over all input type expressions (depth <= 3), input objects nested / recursive / @oneOf, enums, custom scalars, keyword and mixed-case names; assignments from the input-coercion model (absent / null / value at nullable members, lists 0/1/n, exactly one @oneOf member, recursion depth <= 3). Oracle: from_value::<Variables>(assignment) succeeds (expressibility) and to_value(build_query(v))[\"variables\"] equals the model's wire object (declared names exactly; None nullable members omitted under skip_serializing_none, explicit nulls otherwise). Non-trivial: >= 2 variables with an input object or list, and a nullable member present; distinct by hash(schema, document, assignment, skip flag).".into();
+    report.rule = "operations with 1-5 variables over all input type expressions (depth <= 3), input objects nested / recursive / @oneOf, enums, custom scalars, keyword and mixed-case names; assignments from the input-coercion model (absent / null / value at nullable members, lists 0/1/n, exactly one @oneOf member, recursion depth <= 3). Oracle: from_value::<Variables>(assignment) succeeds (expressibility) and to_value(build_query(v))[\"variables\"] equals the model's wire object (declared names exactly; None nullable members omitted under skip_serializing_none, explicit nulls otherwise); for the first assignments of each operation, null or a missing key at each non-null variable / input-object member must be refused by `Variables` (non-null positions are never null). Non-trivial: >= 2 variables with an input object or list, and a nullable member present; distinct by hash(schema, document, assignment, skip flag).".into();
     report.assumptions = vec![
         "rustc 1.95 + serde/serde_json as installed are correct".into(),
         "ID values are given as strings (an integer ID is expressible as its decimal string)".into(),
